@@ -229,6 +229,12 @@ def run(repo, chk):
             if len(rs) != 1 or src(its[rs[0]].args[0]) != want or not js or rs[0] > js[-1]:
                 bad = f'expected reset_ap({want}) before the exit goto; found {[src(its[k].args[0]) for k in rs]}'
                 break
+            # arrays are released only after everything that may still read them: the return value is evaluated first
+            evals = [k for k, e in enumerate(its) if e.kind == 'sub' and e.func in ('self.get_expr_value', 'self.eval_expr', 'self.push_expr')]
+            if evals and rs[0] < max(evals):
+                bad = (f'reset_ap({want}) is emitted before the return value is evaluated: the local arrays are released while the '
+                       'expression may still read them (and its temporaries overwrite them)')
+                break
         chk.expect(bad is None and n > 0, 'C08.L2', f'gen_stmts[{arm}]', bad or f'{n} paths', GEN)
     for p, ev in gf.inlined('gen_block'):
         arms = [e.text for e in ev if e.kind == 'case' and not e.origin]
